@@ -558,7 +558,7 @@ func c10LeakCheck(res *RunResult, variant string) {
 func init() {
 	register(&Check{
 		ID: "C10", Level: "exploration", Run: c10Run,
-		Runs:       [2]int{60000, 1500000},
+		Runs:       [2]int{60000, 6000000},
 		MaxSeconds: [2]int{60, 1200},
 		Rule: "one run = one generated (request limit L in 1..64, in-memory limit M<=L, response limit, Reject|ProcessPartial each side, body-processor mode, MIME on/off list) " +
 			"and 1-6 body operations per side over WriteXBody / ReadXBodyFrom (reader with Len, without Len, chunk scripts incl. (0,nil) reads, optional read error at byte k), total size drawn around L-1,L,L+1,M-1,M,M+1,2L; " +
